@@ -385,16 +385,22 @@ def check_roundtrip(out, case, t, text, what, spec=None):
 
 # --------------------------------------------------------------------------- generators
 
-NAME_ALPHA = ["a", "b", "Z", "é", " ", "-", "1", "*", ":", "_", "x", "µ", ";", ",", "\n", "\t", '"', "\\", "'", "漢", "😀"]
+NAME_ALPHA = ["a", "b", "Z", "é", " ", "-", "1", "*", ":", "_", "x", "µ", ";", ",", "\n", "\t", '"', "\\", "'", "漢", "😀",
+              # not in Unicode normal form C / compatibility characters: a header cell is taken code point for code point
+              "e\u0301", "\u2126", "\u212b", "\ufb01", "a\u030a"]
 TEXT_ALPHA = NAME_ALPHA + ["n", "N", "0", ".", "{", "}", "[", " ", " "]
 TEXT_SPELL = ["", "a", " a ", "-", "nan", "NaN", "None", "null", "**x", ":a", "k:", "1.5", "é µ", "a;b", "*", " ", "true", "NaT",
               "2020-01-01", "é́", "\"q\"", "line\nbreak", "tab\there", "\\u0041"]
-NUM_UNITS = ["-", "m", "kg", "mm", "°C", "m/s", "%", "N m", "", "1/s", "Text", "ONOFF", "€/kWh", "m;s"]
+NUM_UNITS = ["-", "m", "kg", "mm", "°C", "m/s", "%", "N m", "", "1/s", "Text", "ONOFF", "€/kWh", "m;s",
+             "k\u2126", "\u212b", "e\u0301V", "\ufb01t", "\u00b5m", "\u03bcm"]
 SPACES = "".join(chr(c) for c in rc.SPACE_CPS)
 
 
 CASE_PAIRS = [("t", "T"), ("Maß", "MASS"), ("straße", "STRASSE"), ("é", "É"), ("µ", "Μ"), ("ǆ", "ǅ"), ("x y", "X Y"),
-              ("ﬁ", "fi"), ("K", "K"), ("name", "Name")]
+              ("ﬁ", "fi"), ("K", "K"), ("name", "Name"),
+              # names that differ only in Unicode normal form are different names too
+              ("re\u0301sistance", "r\u00e9sistance"), ("k\u2126", "k\u03a9"), ("\u212b", "\u00c5"), ("\ufb01x", "fix"),
+              ("a\u030a", "\u00e5"), ("\u00b5", "\u03bc")]
 
 
 def case_variant(nm):
